@@ -251,7 +251,7 @@ def run_cases(exe, case_lines_list, timeout=900):
 # projections: which lines / fields a property speaks about -----------------------------------------
 def fields(line):
     head, _, tail = line.partition(" | ")
-    return head, dict(t.split("=", 1) for t in tail.split() if "=" in t)
+    return head, {m.group(1): m.group(2) for m in re.finditer(r"(\w+)=(\[[^\]]*\]|\S+)", tail)}
 
 
 def project(prop, line):
